@@ -4,11 +4,14 @@ import (
 	"bufio"
 	"bytes"
 	"encoding/json"
+	"errors"
 	"fmt"
 	"io"
 	"os"
 	"runtime/debug"
+	"sort"
 	"strings"
+	"sync"
 
 	zed "github.com/brimdata/super"
 	"github.com/brimdata/super/compiler/optimizer/demand"
@@ -37,6 +40,10 @@ type request struct {
 	Projs    [][][]string `json:"projs"`
 	Meta     bool         `json:"meta"` // also report the metadata shape
 	SkipVec  bool         `json:"skipvec,omitempty"` // only write, metadata and row reader
+	// Fault > 0: fetch ONE cached vcache.Object Fetches times; the ReadAt of
+	// the Arm-th segment (file order, 0 = none) fails once.
+	Fetches int `json:"fetches,omitempty"`
+	Arm     int `json:"arm,omitempty"`
 }
 
 type readResult struct {
@@ -60,9 +67,124 @@ type response struct {
 	Meta  []Shape      `json:"meta,omitempty"`
 	Tags  []int        `json:"tags,omitempty"`
 	Size  int          `json:"size,omitempty"`
+	NSegs   int           `json:"nsegs,omitempty"`
+	Fetched []fetchResult `json:"fetched,omitempty"`
 	// a panic on the request's own goroutine (recovered): stage and message
 	PanicStage string `json:"panic_stage,omitempty"`
 	Panic      string `json:"panic,omitempty"`
+}
+
+type fetchResult struct {
+	Vals  []string `json:"vals,omitempty"`
+	Err   string   `json:"err,omitempty"`
+	Reads int      `json:"reads"`
+	Fired bool     `json:"fired,omitempty"` // the injected failure was delivered during this fetch
+}
+
+// faultReader is the storage under the cached object: it counts the
+// non-empty reads and fails the read at offset arm once.
+type faultReader struct {
+	r     *bytes.Reader
+	mu    sync.Mutex
+	offs  map[int64]bool
+	reads int
+	arm   int64
+	fired bool
+	hit   bool
+}
+
+func (f *faultReader) ReadAt(b []byte, off int64) (int, error) {
+	if len(b) > 0 {
+		f.mu.Lock()
+		f.reads++
+		if f.offs != nil {
+			f.offs[off] = true
+		}
+		if f.arm >= 0 && off == f.arm && !f.fired {
+			f.fired, f.hit = true, true
+			f.mu.Unlock()
+			return 0, errors.New("injected storage failure")
+		}
+		f.mu.Unlock()
+	}
+	return f.r.ReadAt(b, off)
+}
+
+func fetchAll(vo *vcache.Object) ([]zed.Value, error) {
+	p := vam.NewProjection(zed.NewContext(), vo, nil)
+	var out []zed.Value
+	for {
+		b, err := p.Pull(false)
+		if err != nil {
+			return out, err
+		}
+		if b == nil {
+			return out, nil
+		}
+		for _, v := range b.Values() {
+			out = append(out, v.Copy())
+		}
+	}
+}
+
+// runFaults fetches one cached object several times with a one-shot failure.
+func runFaults(req *request, res *response, data []byte, emit func(*response)) {
+	emit(&response{ID: req.ID, Stage: "fetch-dry"})
+	dry := &faultReader{r: bytes.NewReader(data), offs: map[int64]bool{}, arm: -1}
+	o, err := vng.NewObject(dry)
+	if err != nil {
+		res.Err = "object: " + err.Error()
+		return
+	}
+	dry.mu.Lock()
+	dry.offs = map[int64]bool{} // only the reads of the fetch itself
+	dry.mu.Unlock()
+	if _, err := fetchAll(vcache.NewObjectFromVNG(o)); err != nil {
+		res.Err = "fault-free fetch fails: " + err.Error()
+		return
+	}
+	var offs []int64
+	for off := range dry.offs {
+		offs = append(offs, off)
+	}
+	sort.Slice(offs, func(i, j int) bool { return offs[i] < offs[j] })
+	res.NSegs = len(offs)
+	arm := int64(-1)
+	if req.Arm > 0 {
+		if req.Arm > len(offs) {
+			res.Err = fmt.Sprintf("segment %d requested, the fetch reads %d segments", req.Arm, len(offs))
+			return
+		}
+		arm = offs[req.Arm-1]
+	}
+	fr := &faultReader{r: bytes.NewReader(data), arm: -1}
+	o2, err := vng.NewObject(fr)
+	if err != nil {
+		res.Err = "object: " + err.Error()
+		return
+	}
+	vo := vcache.NewObjectFromVNG(o2)
+	fr.mu.Lock()
+	fr.arm = arm
+	fr.mu.Unlock()
+	for k := 0; k < req.Fetches; k++ {
+		emit(&response{ID: req.ID, Stage: fmt.Sprintf("fetch%d", k+1)})
+		fr.mu.Lock()
+		fr.reads, fr.hit = 0, false
+		fr.mu.Unlock()
+		vals, err := fetchAll(vo)
+		fr.mu.Lock()
+		out := fetchResult{Reads: fr.reads, Fired: fr.hit}
+		fr.mu.Unlock()
+		if err != nil {
+			out.Err = err.Error()
+		} else {
+			for _, v := range vals {
+				out.Vals = append(out.Vals, canon(v))
+			}
+		}
+		res.Fetched = append(res.Fetched, out)
+	}
 }
 
 func childMain() {
@@ -179,6 +301,10 @@ func runRequest(req *request, emit func(*response)) {
 			res.Err = "metadata: " + err.Error()
 			return
 		}
+	}
+	if req.Fetches > 0 {
+		runFaults(req, res, data, emit)
+		return
 	}
 	// row reader
 	emit(&response{ID: req.ID, Stage: "row"})
